@@ -15,6 +15,7 @@ import (
 	"fmt"
 	"os"
 	"regexp"
+	"runtime"
 	"sort"
 	"strconv"
 	"strings"
@@ -47,8 +48,9 @@ type Output struct {
 	Rule       string           `json:"rule"`
 	DetChecked int              `json:"determinism_rechecks"`
 	Harness    string           `json:"harness_error,omitempty"`
+	Next       int              `json:"next,omitempty"`             // stopped for memory: the world index a fresh process continues from
 	Nondet     []string         `json:"nondeterministic,omitempty"` // worlds whose re-execution from the recorded decisions gave another event log
-	RunDigest  string           `json:"run_digest"` // hash over (world index, event digest, verdict) of every world, in order
+	RunDigest  string           `json:"run_digest"`                 // hash over (world index, event digest, verdict) of every world, in order
 }
 
 func die(code int, format string, a ...any) {
@@ -194,6 +196,7 @@ func cmdRun(args []string) {
 	out := fs.String("out", "", "output file")
 	maxFound := fs.Int("max-found", 12, "distinct violation classes to keep")
 	recheckAll := fs.Bool("recheck-all", false, "re-execute every world in replay mode and compare digests")
+	maxMB := fs.Int("max-mem-mb", 1500, "stop (output field next = index to continue from) once the process holds this much memory; 0 = never")
 	fs.Parse(args)
 	sc := h.Scenarios[*prop]
 	if sc == nil {
@@ -210,6 +213,16 @@ func cmdRun(args []string) {
 			break
 		}
 		idx := *start + k**stride
+		if *maxMB > 0 && k%256 == 255 {
+			// reflect.StructOf types (one set per generated schema) are never released by the runtime: a long run is
+			// cut into several processes instead of growing without bound
+			var ms runtime.MemStats
+			runtime.ReadMemStats(&ms)
+			if ms.Sys > uint64(*maxMB)<<20 {
+				o.Next = idx
+				break
+			}
+		}
 		ws := h.Mix(*seed, uint64(idx))
 		var w *h.World
 		if sc.GenIdx != nil {
@@ -270,7 +283,7 @@ func cmdRun(args []string) {
 			o.Samples = append(o.Samples, w)
 		}
 		// determinism self-check on a sample of worlds: same decisions => same event log
-		if (k%50 == 7 || *recheckAll) && rlog == "" && w.Params["volatile"] != 1 {
+		if ((idx / *stride)%50 == 7 || *recheckAll) && rlog == "" && w.Params["volatile"] != 1 {
 			w2 := *w
 			r2 := h.RunWorld(sc, &w2, true, false)
 			o.DetChecked++
